@@ -48,6 +48,7 @@ import contextlib
 import itertools
 import json
 import multiprocessing
+import gc
 import signal
 import time
 import warnings
@@ -500,6 +501,7 @@ def execute(stmt, orm, cache):
     return _CAP["log"], rows
 
 
+HANG_CONFIRM_S = 20.0   # CPU seconds for the confirming re-run of a sequence that timed out once
 HANG_CPU_S = 1.5        # CPU seconds (ITIMER_VIRTUAL: independent of machine load); building + executing a statement takes milliseconds
 
 
@@ -526,8 +528,17 @@ def cpu_limit(seconds=HANG_CPU_S):
 HANG_MSG = "Hang: no return within %.1f s of CPU time" % HANG_CPU_S
 
 
-def run_sequence(shape, seq):
-    """seq: list of argument descriptor tuples.  -> (invocations, failure-or-None, outcomes)"""
+def run_sequence(shape, seq, _limit=None):
+    """seq: list of argument descriptor tuples.  -> (invocations, failure-or-None, outcomes)
+
+    A time-out is only reported after it has been confirmed: the whole sequence is run again from empty caches with a limit of
+    HANG_CONFIRM_S CPU seconds (a first time-out can be a garbage-collection pause of a long thorough run, not an endless loop)."""
+    if _limit is None:
+        n, fail, outcomes = run_sequence(shape, seq, _limit=HANG_CPU_S)
+        if fail is not None and fail.get("got") == HANG_MSG:
+            gc.collect()
+            return run_sequence(shape, seq, _limit=HANG_CONFIRM_S)
+        return n, fail, outcomes
     from sqlalchemy import exc as sa_exc
     builder, pool, orm = SHAPES[shape]
     env()
@@ -537,7 +548,7 @@ def run_sequence(shape, seq):
         vals = [resolve(x) for x in args]
         desc = dict(shape=shape, sequence=seq, invocation=i, args=args)
         try:
-            with cpu_limit():
+            with cpu_limit(_limit):
                 lam, plain = builder(*vals)
         except _Hang:
             return i + 1, dict(desc, clause="construct", expected="statement or documented refusal", got=HANG_MSG), outcomes
@@ -552,7 +563,7 @@ def run_sequence(shape, seq):
             outcomes.append("plain-fails:" + type(e).__name__)
             continue
         try:
-            with cpu_limit():
+            with cpu_limit(_limit):
                 got_sql, got_rows = execute(lam, orm, cache=True)
         except _Hang:
             return i + 1, dict(desc, clause="execute", expected=want_sql, got=HANG_MSG), outcomes
